@@ -201,7 +201,8 @@ def run_check(pid, tier, seed, t0, replay):
     if violations:
         v = violations[0]
         path = write_replay(pid, {"property": pid, "kind": "failing-input", "violation": v.get("violation"),
-                                  "scenario": v.get("scenario"), "trigger": v.get("trigger"), "all": [x.get("violation") for x in violations[:10]],
+                                  "scenario": v.get("scenario"), "case": v.get("case"), "trigger": v.get("trigger"),
+                                  "all": [x.get("violation") for x in violations[:10]],
                                   "replay_cmd": f"./check {pid} --replay <this file>"})
         out_lines.append(f"VIOLATION property={pid} replay={path}")
         status = 1
